@@ -223,6 +223,17 @@ def run(ctx: Ctx) -> Result:
                         res.note_case(('auth-limits', mi, ms, n, k_items))
                         try: got = F.run_auth_scripts([wit, lock], {}, {}, {}, mi, ms, 128)
                         except BaseException as e: got = 'RAISED:' + type(e).__name__
+                        # the deprecated single-script entry point takes the same three limits
+                        if hasattr(F, 'run_auth_script'):
+                            import warnings as _w
+                            with _w.catch_warnings():
+                                _w.simplefilter('ignore')
+                                try: got1 = F.run_auth_script(wit + lock, {}, {}, {}, mi, ms, 128)
+                                except BaseException as e: got1 = 'RAISED:' + type(e).__name__
+                            if got1 != want and len(res.violations) < 10:
+                                res.violations.append({'input': {'source': 'run_auth_script (deprecated single-script form)', 'scripts': [(wit + lock).hex()[:300]], 'stack_max_items': mi, 'stack_max_item_size': ms,
+                                                                 'what': f'push of a {n}-byte item, then {k_items} items on the stack'},
+                                                       'expected': f'{want}: the same limits as run_auth_scripts', 'observed': str(got1), 'how_to_run': './check C07 --tier quick'})
                         if got != want and len(res.violations) < 10:
                             res.violations.append({'input': {'source': 'run_auth_scripts', 'scripts': [wit.hex()[:200], lock.hex()[:200]], 'stack_max_items': mi, 'stack_max_item_size': ms,
                                                              'what': f'push of a {n}-byte item, then {k_items} items on the stack'},
